@@ -413,9 +413,23 @@ func (vfs *BasePathFS) Rel(basepath, targpath string) (string, error) {
 	return avfs.Rel(vfs, basepath, targpath)
 }
 
+// errPermDenied returns the permission denied error of the emulated OS.
+func (vfs *BasePathFS) errPermDenied() error {
+	if vfs.OSType() == avfs.OsWindows {
+		return avfs.ErrWinAccessDenied
+	}
+
+	return avfs.ErrPermDenied
+}
+
 // Remove removes the named file or (empty) directory.
 // If there is an error, it will be of type *PathError.
 func (vfs *BasePathFS) Remove(name string) error {
+	if vfs.ToBasePath(name) == vfs.basePath {
+		// the root of the file system can't be removed.
+		return &fs.PathError{Op: "remove", Path: name, Err: vfs.errPermDenied()}
+	}
+
 	err := vfs.baseFS.Remove(vfs.ToBasePath(name))
 
 	return vfs.FromPathError(err)
@@ -432,6 +446,11 @@ func (vfs *BasePathFS) RemoveAll(path string) error {
 		return nil
 	}
 
+	if vfs.ToBasePath(path) == vfs.basePath {
+		// the root of the file system can't be removed.
+		return &fs.PathError{Op: "unlinkat", Path: path, Err: vfs.errPermDenied()}
+	}
+
 	err := vfs.baseFS.RemoveAll(vfs.ToBasePath(path))
 
 	return vfs.FromPathError(err)
@@ -442,6 +461,16 @@ func (vfs *BasePathFS) RemoveAll(path string) error {
 // OS-specific restrictions may apply when oldpath and newpath are in different directories.
 // If there is an error, it will be of type *LinkError.
 func (vfs *BasePathFS) Rename(oldname, newname string) error {
+	if vfs.ToBasePath(oldname) == vfs.basePath && vfs.ToBasePath(newname) != vfs.basePath {
+		// the root of the file system can't be moved.
+		err := error(avfs.ErrInvalidArgument)
+		if vfs.OSType() == avfs.OsWindows {
+			err = avfs.ErrWinAccessDenied
+		}
+
+		return &os.LinkError{Op: "rename", Old: oldname, New: newname, Err: err}
+	}
+
 	err := vfs.baseFS.Rename(vfs.ToBasePath(oldname), vfs.ToBasePath(newname))
 
 	return vfs.FromLinkError(err)
